@@ -16,6 +16,7 @@ package main
 import (
 	"bytes"
 	"encoding/binary"
+	"math/big"
 	"math/rand"
 	"reflect"
 	"sort"
@@ -35,6 +36,7 @@ type encStyle struct {
 	dirtyWord bool // ignored high bytes of static words set
 	dirtyPad  bool // padding bytes behind string / bytes content set
 	garbage   bool // gaps / trailing bytes are random instead of zero
+	padMode   int  // dirtyPad: 0 = some padding byte / all of them at random, 1 = the first padding byte (next to the content), 2 = the last one, 3 = every one
 }
 
 func (s encStyle) tag() string {
@@ -63,12 +65,13 @@ func (s encStyle) tag() string {
 var baseStyles = []encStyle{
 	{reorder: true}, {gap: true}, {gap: true, garbage: true}, {gap: true, unaligned: true}, {dup: true}, {share: true}, {overlap: true},
 	{trailing: true}, {trailing: true, garbage: true}, {dirtyWord: true}, {dirtyPad: true},
+	{dirtyPad: true, padMode: 1}, {dirtyPad: true, padMode: 2}, {dirtyPad: true, padMode: 3},
 	{share: true, reorder: true}, {share: true, trailing: true}, {reorder: true, gap: true, garbage: true},
 }
 
 func randomStyle(rng *rand.Rand) encStyle {
 	b := func() bool { return rng.Intn(3) == 0 }
-	return encStyle{b(), b(), b(), b(), b(), b(), b(), b(), b(), rng.Intn(2) == 0}
+	return encStyle{b(), b(), b(), b(), b(), b(), b(), b(), b(), rng.Intn(2) == 0, rng.Intn(4)}
 }
 
 type ncEnc struct {
@@ -101,15 +104,6 @@ func u256(x int) []byte {
 	return w
 }
 
-// canonical 32-byte word of a static value, from the real packer
-func canonWord(t abi.Type, v reflect.Value) []byte {
-	b, err := abi.Arguments{{Name: "x", Type: t}}.Pack(v.Interface())
-	if err != nil || len(b) != 32 {
-		panic("c13 abienc: static word of " + t.String())
-	}
-	return b
-}
-
 func (e *ncEnc) fill(n int) []byte {
 	b := make([]byte, n)
 	if e.st.garbage {
@@ -119,7 +113,7 @@ func (e *ncEnc) fill(n int) []byte {
 }
 
 func (e *ncEnc) staticWord(t abi.Type, v reflect.Value) []byte {
-	w := canonWord(t, v)
+	w := refWord(t, v)
 	if k := ignoredPrefix(t); e.st.dirtyWord && k > 0 && e.rng.Intn(3) != 0 {
 		switch e.rng.Intn(3) {
 		case 0: // one byte
@@ -145,12 +139,22 @@ func (e *ncEnc) tail(t abi.Type, v reflect.Value) (tail []byte, read int) {
 		} else {
 			c = v.Bytes()
 		}
+		c = append([]byte{}, c...)
 		pad := (32 - len(c)%32) % 32
 		p := make([]byte, pad)
-		if e.st.dirtyPad && pad > 0 && e.rng.Intn(3) != 0 {
-			if e.rng.Intn(2) == 0 {
+		if e.st.dirtyPad && pad > 0 && (e.st.padMode != 0 || e.rng.Intn(3) != 0) {
+			switch {
+			case e.st.padMode == 1:
+				p[0] = byte(1 + e.rng.Intn(255))
+			case e.st.padMode == 2:
+				p[pad-1] = byte(1 + e.rng.Intn(255))
+			case e.st.padMode == 3:
+				for k := range p {
+					p[k] = byte(1 + e.rng.Intn(255))
+				}
+			case e.rng.Intn(2) == 0:
 				p[e.rng.Intn(pad)] = byte(1 + e.rng.Intn(255))
-			} else {
+			default:
 				e.rng.Read(p)
 				p[0] |= 1
 			}
@@ -298,32 +302,64 @@ func (e *ncEnc) area(ts []abi.Type, vs []reflect.Value, top bool) []byte {
 }
 
 type ncData struct {
-	data []byte
-	tag  string
+	data  []byte
+	tag   string
+	other bool // decodes to other values than the tuple it was made from
 }
 
-// sameDecode: data is accepted by the real decoder and carries exactly the values whose canonical packing is canon
-func sameDecode(a abi.ABIContract, m abi.Method, data, canon []byte) (ok bool) {
-	defer func() {
-		if recover() != nil {
-			ok = false
+func addToWord(w []byte, d int64) {
+	x := new(big.Int).SetBytes(w)
+	x.Add(x, big.NewInt(d))
+	if x.Sign() < 0 {
+		x.SetInt64(0)
+	}
+	copy(w, refBigWord(x))
+}
+
+// byte-level alterations of the canonical packing that need no knowledge of the layout
+func lenient(rng *rand.Rand, canon []byte) []ncData {
+	var res []ncData
+	body := len(canon) - 4
+	if body < 32 {
+		return nil
+	}
+	words := body / 32
+	cp := func() []byte { return append([]byte{}, canon...) }
+	// the end of the data cut off (the padding of the last string / bytes is never read)
+	for _, k := range []int{1, 1 + rng.Intn(31), 31} {
+		res = append(res, ncData{data: cp()[:len(canon)-k], tag: "truncated-end"})
+	}
+	// each small word (offset, length, count) moved a little: up to 6 words per tuple
+	idx := rng.Perm(words)
+	n := 0
+	for _, k := range idx {
+		w := canon[4+32*k : 4+32*k+32]
+		if !bytes.Equal(w[:28], make([]byte, 28)) {
+			continue
 		}
-	}()
-	if len(data) < 4 || !bytes.Equal(data[:4], canon[:4]) {
-		return false
+		if n++; n > 6 {
+			break
+		}
+		for _, d := range []int64{1, 31, 32, -1, -32, int64(1 + rng.Intn(64))} {
+			x := cp()
+			addToWord(x[4+32*k:4+32*k+32], d)
+			res = append(res, ncData{data: x, tag: "word-moved"})
+		}
+		x := cp()
+		x[4+32*k+rng.Intn(24)] |= byte(1 + rng.Intn(255))
+		res = append(res, ncData{data: x, tag: "word-high-byte"})
 	}
-	if len(m.Inputs) == 0 {
-		return a.UnpackEmptyMethod(m.Name, data) == nil
-	}
-	vs, err := m.Inputs.UnpackValues(data[4:])
-	if err != nil {
-		return false
-	}
-	re, err := a.PackMethod(m.Name, vs...)
-	return err == nil && bytes.Equal(re, canon)
+	return res
 }
 
-// canonicalOf: the canonical packing of what data decodes to (nil if it does not decode)
+// sameDecode: data is accepted by the real decoder and carries exactly the values whose canonical encoding is canon
+// (judged by the reference encoder of abiref.go, not by the implementation's packer)
+func sameDecode(a abi.ABIContract, m abi.Method, data, canon []byte) bool {
+	re := canonicalOf(a, m, data)
+	return re != nil && bytes.Equal(re, canon)
+}
+
+// canonicalOf: the canonical encoding (reference encoder) of what data decodes to (nil if it does not decode)
 func canonicalOf(a abi.ABIContract, m abi.Method, data []byte) (canon []byte) {
 	defer func() {
 		if recover() != nil {
@@ -344,11 +380,7 @@ func canonicalOf(a abi.ABIContract, m abi.Method, data []byte) (canon []byte) {
 	if err != nil {
 		return nil
 	}
-	re, err := a.PackMethod(m.Name, vs...)
-	if err != nil {
-		return nil
-	}
-	return re
+	return refPack(m, vs)
 }
 
 // nonCanonical returns up to want distinct encodings of args that the real decoder maps to the same values and
@@ -357,13 +389,14 @@ func nonCanonical(rng *rand.Rand, a abi.ABIContract, m abi.Method, args []interf
 	var res []ncData
 	seen := map[string]bool{string(canon): true}
 	perTag := map[string]int{}
+	force := false
 	keep := func(d []byte, tag string) {
 		if seen[string(d)] {
 			count("enc-dropped:duplicate-or-canonical")
 			return
 		}
 		seen[string(d)] = true
-		if perTag[tag] >= 2 && !strings.Contains(tag, "+") {
+		if perTag[tag] >= 2 && !strings.Contains(tag, "+") && !force {
 			return // enough of this one kind for this tuple
 		}
 		perTag[tag]++
@@ -371,24 +404,16 @@ func nonCanonical(rng *rand.Rand, a abi.ABIContract, m abi.Method, args []interf
 			count("enc-dropped:not-same-decode:" + tag)
 			return
 		}
-		res = append(res, ncData{d, tag})
+		res = append(res, ncData{data: d, tag: tag})
 	}
 	if len(m.Inputs) == 0 {
 		// nothing but the selector decodes; offered anyway so that a method that stops checking is seen
 		for _, k := range []int{1, 32} {
-			res = append(res, ncData{append(append([]byte{}, canon...), make([]byte, k)...), "trailing(no-args)"})
+			res = append(res, ncData{data: append(append([]byte{}, canon...), make([]byte, k)...), tag: "trailing(no-args)"})
 		}
 		return res
 	}
-	ts := make([]abi.Type, len(m.Inputs))
-	vs := make([]reflect.Value, len(m.Inputs))
-	for i, in := range m.Inputs {
-		ts[i] = in.Type
-		vs[i] = reflect.ValueOf(args[i])
-		for vs[i].Kind() == reflect.Ptr && ts[i].T != abi.UintTy && ts[i].T != abi.IntTy {
-			vs[i] = vs[i].Elem()
-		}
-	}
+	ts, vs := argValues(m, args)
 	encode := func(st encStyle) {
 		defer func() {
 			if r := recover(); r != nil {
@@ -408,14 +433,49 @@ func nonCanonical(rng *rand.Rand, a abi.ABIContract, m abi.Method, args []interf
 		}
 		keep(append(append([]byte{}, canon[:4]...), body...), tag)
 	}
+	// always there, whatever the budget: every position of dirty padding behind string / bytes content (the decoder
+	// never reads it) and dirty ignored bytes of narrow static words
+	for _, st := range []encStyle{{dirtyPad: true, padMode: 1}, {dirtyPad: true, padMode: 2}, {dirtyPad: true, padMode: 3}, {dirtyWord: true}} {
+		force = true
+		encode(st)
+		force = false
+	}
+	// what a lenient decoder tolerates without the values staying the same: a length word that reaches into the
+	// padding / the next tail, an offset moved by a few bytes, the end of the padding cut off, a set high byte of a
+	// word. Kept if the real decoder takes it and it is not the canonical encoding of what it decodes to.
+	nl := 0
+	for _, l := range lenient(rng, canon) {
+		if seen[string(l.data)] {
+			continue
+		}
+		seen[string(l.data)] = true
+		c := canonicalOf(a, m, l.data)
+		if c == nil {
+			count("enc-dropped:lenient-not-decodable:" + l.tag)
+			continue
+		}
+		if bytes.Equal(c, l.data) {
+			count("enc-dropped:lenient-canonical-of-other-values")
+			continue
+		}
+		if !bytes.Equal(c, canon) {
+			l.other = true
+		}
+		if nl++; nl > 8 {
+			break
+		}
+		res = append(res, l)
+	}
+	must := len(res)
 	styles := append([]encStyle{}, baseStyles...)
 	rng.Shuffle(len(styles), func(i, j int) { styles[i], styles[j] = styles[j], styles[i] })
 	for _, st := range styles {
-		if len(res) >= want*2/3 {
+		if len(res)-must >= want*2/3 {
 			break
 		}
 		encode(st)
 	}
+	want += must
 	// byte flips of the canonical packing that the decoder does not notice (finds every ignored byte generically)
 	for tries := 0; tries < 24 && len(res) < want*5/6 && len(canon) > 4; tries++ {
 		d := append([]byte{}, canon...)
